@@ -7,6 +7,7 @@
    and texts of any length, bundles with any number of policies and assets. *)
 From CSL Require Import Base.Prelude Base.U64 Cbor.Head Num.Decimal Num.U64 Num.IntRange Num.BigIntCbor Num.Value.
 From CSL Require Import Num.U64Proofs Num.DecimalProofs Num.IntRangeProofs Num.BigIntCborProofs Num.ValueProofs.
+From CSL Require Import Num.C14Model Num.C14ModelProofs.
 Local Open Scope N_scope.
 
 (* ---------------------------------------------------------------------------------------------------------------- *)
@@ -218,3 +219,24 @@ Example C14_value_example :
   value_checked_sub a (mkValue 3 (Some [([1], [([120], 5)])])) = Ok (mkValue 7 (Some [([1], [([1; 2], 7)]); ([2], [([], two64 - 1)])])) /\
   value_checked_add a a = Err /\ value_checked_sub a b = Err /\ value_partial_cmp a b = None.
 Proof. repeat split; vm_compute; reflexivity. Qed.
+
+(* ---------------------------------------------------------------------------------------------------------------- *)
+(* The executable judge of the correspondence run (Num/C14Model.v, extracted) accepts the model's own observation for ALL
+   inputs; the only non-`Holds` verdicts on the model are the two known classes.  So a `fails` verdict in a run speaks about
+   the implementation, and the conditions the judge evaluates are consequences of the theorems above. *)
+Theorem C14_judge_accepts_model :
+  (forall op a b, a < two64 -> b < two64 ->
+     judge_bn op a b (model_bn op a b) = if known_div_by_zero op b then Fails cls_div_zero else Holds) /\
+  (forall src, int_src_wf src = true -> int_src_bytes_ok src ->
+     judge_int src (model_int src) = Holds \/
+     (judge_int src (model_int src) = Fails cls_as_negative /\ int_obtain src = Some int_min)) /\
+  (forall ops, forallb (fun op => int_in_range (mint_op_amount op)) ops = true -> judge_mint ops (model_mint ops) = Holds) /\
+  (forall z, judge_biz z (model_biz z) = Holds) /\
+  (forall bs, judge_bibytes bs (model_bibytes bs) = Holds \/ model_bibytes bs = OutOfFuel) /\
+  (forall a b, value_wf a -> value_wf b -> judge_val a b (model_val a b) = Holds) /\
+  (forall a b c, value_wf a -> value_wf b -> value_wf c -> judge_val3 a b c (model_val3 a b c) = Holds).
+Proof.
+  split; [exact judge_bn_accepts|]. split; [exact judge_int_accepts|]. split; [exact judge_mint_accepts|].
+  split; [exact judge_biz_accepts|]. split; [exact judge_bibytes_accepts|]. split; [exact judge_val_accepts | exact judge_val3_accepts].
+Qed.
+Print Assumptions C14_judge_accepts_model.
